@@ -31,9 +31,15 @@ configs = st.fixed_dictionaries({
     "PYTHONWARNINGS": st.sampled_from([None, None, "error", "default"]),
     "PYTHONOPTIMIZE": st.sampled_from([None, None, "1", "2"]),
     "logging": st.sampled_from([None, None, "DEBUG", "INFO"]),
+    "PYTHONCOERCECLOCALE": st.sampled_from([None, "0", "0"]),
     "cwd": st.sampled_from(["root", "scratch"]),
     "preimport": st.sampled_from(PREIMPORTS),
 })
+
+
+def with_ascii_locale(cfg):
+    """The configuration under which Python's locale encoding really is ASCII (no UTF-8 mode, no C-locale coercion)."""
+    return dict(cfg, LC_ALL="C", PYTHONUTF8="0", PYTHONCOERCECLOCALE="0")
 
 
 def run_child(task, corpus, config, timeout=120):
@@ -44,8 +50,8 @@ def run_child(task, corpus, config, timeout=120):
         with open(cf, "w", encoding="utf-8") as f:
             f.write(tagjson.dumps(corpus))
         env = {k: v for k, v in os.environ.items()
-               if k not in ("PYTHONHASHSEED", "LC_ALL", "LANG", "TZ", "PYTHONUTF8", "PYTHONIOENCODING", "PYTHONWARNINGS", "PYTHONOPTIMIZE")}
-        for k in ("PYTHONHASHSEED", "LC_ALL", "TZ", "PYTHONUTF8", "PYTHONIOENCODING", "PYTHONWARNINGS", "PYTHONOPTIMIZE"):
+               if k not in ("PYTHONHASHSEED", "LC_ALL", "LANG", "TZ", "PYTHONUTF8", "PYTHONIOENCODING", "PYTHONWARNINGS", "PYTHONOPTIMIZE", "PYTHONCOERCECLOCALE", "LC_CTYPE")}
+        for k in ("PYTHONHASHSEED", "LC_ALL", "TZ", "PYTHONUTF8", "PYTHONIOENCODING", "PYTHONWARNINGS", "PYTHONOPTIMIZE", "PYTHONCOERCECLOCALE"):
             if config.get(k) is not None:
                 env[k] = config[k]
         env["PYTHONPATH"] = os.pathsep.join([REPO, ROOT])
@@ -145,6 +151,16 @@ def _child(task, corpus_file, outf):
         d = tempfile.mkdtemp(prefix="persist-")
         for i, doc in enumerate(corpus):
             fn = os.path.join(d, "m%d.json" % i)
+            if isinstance(doc, dict) and set(doc) == {"rawfile"}:
+                # a file as an external tool wrote it (raw UTF-8, any whitespace): only the loader is exercised
+                try:
+                    with open(fn, "wb") as f:
+                        f.write(doc["rawfile"])
+                    back = C.load_metadata_from_file(fn)
+                    out.append(["-", hashlib.sha256(C.canonserialize(back)).hexdigest()])
+                except BaseException as e:
+                    out.append(["raise:" + type(e).__name__, ""])
+                continue
             try:
                 with open(fn, "wb") as f:
                     f.write(b"previous content of the file, longer than nothing\n" * 3)
